@@ -178,8 +178,10 @@ def gen_case(rng, layout_name, real=None, boundary=False):
             case["depth"] = _snap(rng, 0, 1, [0.0, 0.0, 0.0, 1.0, 0.5, 2.0 * case["position"][2]], 0.7)
             case["depth"] = min(max(case["depth"], 0.0), 1.0)
     case["diffuse"] = _snap(rng, 0, 1, [0.0, 0.0, 1.0, 0.5], 0.6)
-    case["gain"] = float(rng.choice([1.0, 1.0, 0.5, 2.0, 0.0, round(10 ** rng.uniform(-3, 1), 4)]))
-    case["ogain"] = float(rng.choice([1.0, 1.0, 1.0, 0.25, 3.0, 0.0, round(10 ** rng.uniform(-3, 1), 4)]))
+    case["gain"] = float(rng.choice([1.0, 1.0, 0.5, 2.0, round(10 ** rng.uniform(-3, 1), 4)]))
+    case["ogain"] = float(rng.choice([1.0, 1.0, 1.0, 0.25, 3.0, round(10 ** rng.uniform(-3, 1), 4)]))
+    if rng.random() < 0.03:
+        case[rng.choice(["gain", "ogain"])] = 0.0
     case["mute"] = rng.random() < 0.08
     case["screenRef"] = rng.random() < 0.2
     case["lock"] = None
